@@ -20,7 +20,7 @@ package validator
 //@ func GenerateRego(profileText string, debug bool, eventChan *chan e.Event) (*generator.RegoUnit, error)
 //@   ensures [C08:no-compile] opaRejected == old(opaRejected) && opaEvaluated == old(opaEvaluated)
 //@   requires [C11:fresh] eventChan != nil ==> (chanClosed == 0 && !evOpen && evNext == 0)
-//@   ensures [C11:stages] eventChan != nil ==> (chanClosed == old(chanClosed) && !evOpen && (result1 == nil ==> evNext == 2) && (result1 != nil ==> evNext == 1))
+//@   ensures [C11:stages] eventChan != nil ==> (chanClosed == old(chanClosed) && !evOpen && (result1 == nil ==> evNext == 2) && (result1 != nil ==> (evNext == 1 || evNext == 2)))
 //@   ensures-assumed [C18:lib-function] result1 == libRegoErr(profileText) && (result1 == nil ==> result0 != nil && deref(result0).Code == libRegoCode(profileText)) && stdout == old(stdout)
 
 //@ func CompileRego(regoUnit *generator.RegoUnit, eventChan *chan e.Event) (*rego.PreparedEvalQuery, error)
@@ -39,6 +39,8 @@ package validator
 //@   ensures-assumed [C09:A-OPA5] result1 == compileErr(profileText) && (result1 == nil ==> result0 != nil && deref(result0) == compiledQuery(profileText))
 
 //@ func ProcessInput(jsonldText string, debug bool, receiver *chan e.Event) (any, error)
+//@   requires [C04:not-yet] !ldRejected
+//@   ensures [C04:jsonld-rejected] ldRejected ==> result1 != nil
 //@   ensures [C08:no-opa] opaRejected == old(opaRejected) && opaEvaluated == old(opaEvaluated)
 //@   requires [C11:compiled] receiver != nil ==> (chanClosed == 0 && !evOpen && evNext == 3)
 //@   ensures [C11:stages] receiver != nil ==> (chanClosed == old(chanClosed) && (result1 == nil ==> !evOpen && evNext == 5))
@@ -57,6 +59,8 @@ package validator
 //@   ensures [C11:stages] eventChan != nil ==> (chanClosed == old(chanClosed) && !evOpen && evNext == 7)
 
 //@ func ValidateCompiledWithConfiguration(compiledRegoPtr *rego.PreparedEvalQuery, jsonldText string, debug bool, eventChan *chan e.Event, validationConfig c.ValidationConfiguration, reportConfig c.ReportConfiguration) (string, error)
+//@   requires [C04:not-yet] !ldRejected
+//@   ensures [C04:jsonld-rejected-no-verdict] ldRejected ==> (result1 != nil && result0 == "")
 //@   ensures [C08:no-compile] opaRejected == old(opaRejected)
 //@   requires [C11:compiled] eventChan != nil ==> (chanClosed == 0 && !evOpen && evNext == 3)
 //@   ensures [C11:closed-once] eventChan != nil ==> chanClosed == old(chanClosed) + 1
@@ -64,6 +68,8 @@ package validator
 //@   ensures-assumed [C09:function-of-inputs] compiledRegoPtr != nil ==> (result0 == libCompiledReport(deref(compiledRegoPtr), jsonldText, validationConfig, reportConfig) && result1 == libCompiledReportErr(deref(compiledRegoPtr), jsonldText, validationConfig, reportConfig))
 
 //@ func ValidateWithConfiguration(profileText string, jsonldText string, debug bool, eventChan *chan e.Event, validationConfig c.ValidationConfiguration, reportConfig c.ReportConfiguration) (string, error)
+//@   requires [C04:not-yet] !ldRejected
+//@   ensures [C04:jsonld-rejected-no-verdict] ldRejected ==> (result1 != nil && result0 == "")
 //@   requires [C08:not-yet] !opaRejected && !opaEvaluated
 //@   ensures [C08:nothing-evaluated] opaRejected ==> (result1 != nil && result0 == "" && !opaEvaluated)
 //@   requires [C11:fresh] eventChan != nil ==> (chanClosed == 0 && !evOpen && evNext == 0)
@@ -74,6 +80,8 @@ package validator
 //@   ensures [C09:compile-error-no-report] compileErr(profileText) != nil ==> (result1 != nil && result0 == "")
 
 //@ func Validate(profileText string, jsonldText string, debug bool, eventChan *chan e.Event) (string, error)
+//@   requires [C04:not-yet] !ldRejected
+//@   ensures [C04:jsonld-rejected-no-verdict] ldRejected ==> (result1 != nil && result0 == "")
 //@   requires [C08:not-yet] !opaRejected && !opaEvaluated
 //@   ensures [C08:nothing-evaluated] opaRejected ==> (result1 != nil && result0 == "" && !opaEvaluated)
 //@   requires [C11:fresh] eventChan != nil ==> (chanClosed == 0 && !evOpen && evNext == 0)
@@ -82,6 +90,8 @@ package validator
 //@   ensures-assumed [C18:lib-function] result0 == libReport(profileText, jsonldText) && result1 == libReportErr(profileText, jsonldText) && stdout == old(stdout)
 
 //@ func ValidateCompiled(compiledRegoPtr *rego.PreparedEvalQuery, jsonldText string, debug bool, eventChan *chan e.Event) (string, error)
+//@   requires [C04:not-yet] !ldRejected
+//@   ensures [C04:jsonld-rejected-no-verdict] ldRejected ==> (result1 != nil && result0 == "")
 //@   requires [C11:compiled] eventChan != nil ==> (chanClosed == 0 && !evOpen && evNext == 3)
 //@   ensures [C11:closed-once] eventChan != nil ==> chanClosed == old(chanClosed) + 1
 //@   ensures [C04:no-verdict] !jsonTextValid(jsonldText) ==> (result1 != nil && result0 == "")
@@ -196,9 +206,11 @@ package validator
 //@     invariant [C14] forall j int :: (0 <= j && j < #i && is(v[j], map[string]any)) ==> (let L = old(deref(nodeIndex)[v[j].(map[string]any)["@id"].(string)].(map[string]any)) :: (is(old(L[ELEMENTS]), map[string]any) ==> has(idToLocation, old(L[ELEMENTS].(map[string]any)["@id"].(string)))))
 
 //@ func Index(json any) any
+//@   requires-assumed [C14:A-HEAP] is(json, map[string]any) ==> ref(json.(map[string]any)) <= alloc
 //@   requires-assumed [C14:A-HEAP] forall k int :: (0 <= k && k < len(json.(map[string]any)["@graph"].([]any))) ==> (is(json.(map[string]any)["@graph"].([]any)[k], map[string]any) ==> ref(json.(map[string]any)["@graph"].([]any)[k].(map[string]any)) <= alloc)
 //@   ensures [C14:three-indexes] is(result, map[string]any) && is(result.(map[string]any)["@ids"], map[string]any) && is(result.(map[string]any)["@types"], map[string][]string) && is(result.(map[string]any)["@lexical"], map[string]any)
-//@   ensures [C12:every-node-indexed] forall k int :: (0 <= k && k < len(old(json.(map[string]any)["@graph"].([]any)))) ==> has(result.(map[string]any)["@ids"].(map[string]any), old(json.(map[string]any)["@graph"].([]any)[k].(map[string]any)["@id"].(string)))
+//@   ensures [C12:every-node-indexed] (is(json, map[string]any) && is(old(json.(map[string]any)["@graph"]), []any)) ==> forall k int :: (0 <= k && k < len(old(json.(map[string]any)["@graph"].([]any)))) ==> has(result.(map[string]any)["@ids"].(map[string]any), old(json.(map[string]any)["@graph"].([]any)[k].(map[string]any)["@id"].(string)))
+//@   ensures [C17:no-nodes-is-an-empty-graph] !(is(json, map[string]any) && is(old(json.(map[string]any)["@graph"]), []any)) ==> (forall k string :: !has(result.(map[string]any)["@ids"].(map[string]any), k) && !has(result.(map[string]any)["@lexical"].(map[string]any), k))
 //@   ensures [C14:no-source-maps-no-locations] len(result.(map[string]any)["@types"].(map[string][]string)[SOURCEMAP]) == 0 ==> (forall k string :: !has(result.(map[string]any)["@lexical"].(map[string]any), k))
 //@   ensures [C14:input-untouched] forall m map[string]any :: ref(m) <= old(alloc) ==> unchanged(m)
 //@   loop 1 /* for _, nn := range nodes */
@@ -218,3 +230,7 @@ package validator
 //@     invariant [C14] forall m map[string]any :: ref(m) <= old(alloc) ==> unchanged(m)
 //@     invariant [C14] forall j int :: (0 <= j && j < len(nodes)) ==> has(nodeIndex, old(nodes[j].(map[string]any)["@id"].(string)))
 //@     invariant [C14] forall k string :: has(nodeIndex, k) ==> (is(nodeIndex[k], map[string]any) && ref(nodeIndex[k].(map[string]any)) <= old(alloc))
+
+//@ func normalize(json any) (any, error)
+//@   ensures [C04:rejection-is-an-error] (ldRejected && !old(ldRejected)) ==> result1 != nil
+//@   ensures [C04:keeps-flag] old(ldRejected) ==> ldRejected
